@@ -1177,6 +1177,9 @@ func eachDominatingCond(in ssa.Instruction, fn func(c ssa.Value, pol bool) bool)
 			if len(s.Preds) == 1 && s.Dominates(b) {
 				c, pol := normCond(iff.Cond, i == 0)
 				fn(c, pol)
+				for _, cj := range expandShortCircuit(c, pol, 0) {
+					fn(cj.c, cj.pol)
+				}
 			}
 		}
 	}
